@@ -47,7 +47,8 @@ class LazyConversion:
     @property
     def inherited(self) -> Optional[bool]:
         conversion = self.get()
-        return isinstance(conversion, Conversion) and conversion.inherited
+        # a plain converter is inherited like a non-lazy one (Conversion.inherited None)
+        return conversion.inherited if isinstance(conversion, Conversion) else None
 
 
 ConvOrFunc = Union[Conversion, Converter, property, LazyConversion]
